@@ -163,3 +163,81 @@ func (env *Env) findStruct(pkg, name string) *types.Struct {
 	}
 	return nil
 }
+
+// jsonTagViolations: "type T: jsontag Field \"tag\"" pins the wire name (and options) of a serialised field: the struct tag is outside
+// what the symbolic model of encoding/json sees, yet it decides what is stored and what a consumer built from another version reads back.
+func (env *Env) jsonTagViolations() (checked int, bad []string) {
+	for _, td := range env.cs.Types {
+		for _, c := range td.Clauses {
+			if c.Kw != "jsontag" {
+				continue
+			}
+			fs := strings.Fields(c.Text)
+			if len(fs) != 2 {
+				bad = append(bad, td.Pkg+"."+td.Name+": malformed jsontag clause "+c.Text)
+				continue
+			}
+			field, want := fs[0], strings.Trim(fs[1], "\"")
+			checked++
+			st := env.findStruct(td.Pkg, td.Name)
+			if st == nil {
+				bad = append(bad, td.Pkg+"."+td.Name+"."+field+": type not found")
+				continue
+			}
+			found := false
+			for i := 0; i < st.NumFields(); i++ {
+				if st.Field(i).Name() != field {
+					continue
+				}
+				found = true
+				got := reflectTag(st.Tag(i), "json")
+				if got != want {
+					bad = append(bad, fmt.Sprintf("%s.%s.%s: json tag is %q, contract pins %q", td.Pkg, td.Name, field, got, want))
+				}
+			}
+			if !found {
+				bad = append(bad, td.Pkg+"."+td.Name+"."+field+": no such field")
+			}
+		}
+	}
+	return
+}
+
+// reflectTag: value of key in a struct tag string (as reflect.StructTag.Get).
+func reflectTag(tag, key string) string {
+	for tag != "" {
+		i := 0
+		for i < len(tag) && tag[i] == ' ' {
+			i++
+		}
+		tag = tag[i:]
+		if tag == "" {
+			break
+		}
+		i = 0
+		for i < len(tag) && tag[i] > ' ' && tag[i] != ':' && tag[i] != '"' {
+			i++
+		}
+		if i == 0 || i+1 >= len(tag) || tag[i] != ':' || tag[i+1] != '"' {
+			break
+		}
+		name := tag[:i]
+		tag = tag[i+1:]
+		i = 1
+		for i < len(tag) && tag[i] != '"' {
+			if tag[i] == '\\' {
+				i++
+			}
+			i++
+		}
+		if i >= len(tag) {
+			break
+		}
+		val := tag[1:i]
+		tag = tag[i+1:]
+		if name == key {
+			return val
+		}
+	}
+	return ""
+}
